@@ -43,7 +43,7 @@ func busRoles(c *Ctx, rule string) (*Prog, *BusRoles) {
 
 func init() {
 	register("C04", &PropDef{
-		Explain: "Structural necessary conditions of 'a Once handler fires at most once, and exactly once when eligible', decided for all paths of PublishContext, its async goroutine and the dispatch function by exploring the product of a delivery automaton with the inlined SSA control-flow graph: (R1) every dispatch of a once registration is control-dependent on the success edge of an atomic compare-and-swap 0→1 on that registration's claim word, which has no other writer and is never reset after a dispatch; (R2) from the success edge every path to the end of the delivery (iteration end / goroutine exit) dispatches and invokes the handler; (R3) filter verdict and a live poll of the publish context precede the claim, so a rejected or cancelled publish cannot use the handler up; (R4) every won claim is queued for removal and the removal region runs before return. Not decided: 'exactly once when eligible' across concurrent publishers beyond R1∧R2.",
+		Explain: "Structural necessary conditions of 'a Once handler fires at most once, and exactly once when eligible', decided for all paths of PublishContext, its async goroutine and the dispatch function by exploring the product of a delivery automaton with the inlined SSA control-flow graph: (R1) every dispatch of a once registration is control-dependent on the success edge of an atomic compare-and-swap 0→1 on that registration's claim word, which has no other writer and is never reset after a dispatch; (R2) from the success edge every path to the end of the delivery (iteration end / goroutine exit) dispatches and invokes the handler; (R3) filter verdict and a live poll of the publish context precede the claim, so a rejected or cancelled publish cannot use the handler up; (R4) every won claim is queued for removal and the removal region runs before return. Not decided: 'exactly once when eligible' across concurrent publishers beyond R1∧R2. R3 also covers the bundled otel observer (the context it hands back keeps the publish context's cancellation) and treats a filter that was not evaluated as not having accepted; R4 also requires retirement to remove by identity only (no bare re-slice) under the same dynamic-type key.",
 		Run: func(c *Ctx) {
 			c.Rule("C04.R1", "dispatch of a once registration only on the success edge of CAS(&claim,0,1); claim word atomic-only, never reset after dispatch")
 			c.Rule("C04.R2", "a won claim is never wasted: every path from the CAS success edge dispatches and invokes")
@@ -83,7 +83,7 @@ func init() {
 
 func init() {
 	register("C05", &PropDef{
-		Explain: "Structural necessary conditions of 'a panicking handler never harms the publisher or the other handlers', decided on all paths (including panic edges and deferred calls) of PublishContext, its async goroutine, the dispatch function and its deferred closure: (R1) every invocation of the handler value happens inside the dispatch function and its panic edge is absorbed by a deferred closure of the same frame that calls recover() — a panic escaping to the publisher or the goroutine top is unreachable, so the dispatch loop continues with the next registration; (R2) the panic handler is called exactly once iff a panic was recovered and the handler is set, with (published event, registration's handler type, recover() value); (R3) on the panic edge the sequential lock is released and the wait-group Done calls are executed; (R4) the once claim word is never reset after a dispatch, so a panicking Once handler stays retired. Not decided: panics in filters, hooks or the panic handler itself.",
+		Explain: "Structural necessary conditions of 'a panicking handler never harms the publisher or the other handlers', decided on all paths (including panic edges and deferred calls) of PublishContext, its async goroutine, the dispatch function and its deferred closure: (R1) every invocation of the handler value happens inside the dispatch function and its panic edge is absorbed by a deferred closure of the same frame that calls recover() — a panic escaping to the publisher or the goroutine top is unreachable, so the dispatch loop continues with the next registration; (R2) the panic handler is called exactly once iff a panic was recovered and the handler is set, with (published event, registration's handler type, recover() value); (R3) on the panic edge the sequential lock is released and the wait-group Done calls are executed; (R4) the once claim word is never reset after a dispatch, so a panicking Once handler stays retired. Not decided: panics in filters, hooks or the panic handler itself. R2 also requires the handler type recorded in a registration to be reflect.TypeOf of the handler it stores.",
 		Run: func(c *Ctx) {
 			c.Rule("C05.R1", "every handler invocation is inside a recover scope of its own dispatch frame; PanicEscapes unreachable")
 			c.Rule("C05.R2", "panic handler exactly once iff recovered and set, with (event, handlerType, recovered value)")
@@ -124,7 +124,7 @@ func init() {
 		},
 	})
 	register("C06", &PropDef{
-		Explain: "Structural necessary conditions of 'Wait and Shutdown return only after all asynchronous work has finished': (R1) for each go statement whose body calls Done on the bus wait group, exactly one Add(1) on that wait group happens in the publisher between the previous spawn and this one, never inside the spawned body, and no Add is left unbalanced on a path that does not spawn — this holds or fails for every schedule at once; (R2) Done is executed exactly once on every exit of the goroutine body, including the context-skip return and panic edges; (R3) Wait waits on the same wait-group field; (R4) Shutdown: the store is closed only on the arm selected by the completion of Wait, nil is returned only there, the context arm returns the context's error and closes nothing, and a Close error is returned. Not decided: real-time claims.",
+		Explain: "Structural necessary conditions of 'Wait and Shutdown return only after all asynchronous work has finished': (R1) for each go statement whose body calls Done on the bus wait group, exactly one Add(1) on that wait group happens in the publisher between the previous spawn and this one, never inside the spawned body, and no Add is left unbalanced on a path that does not spawn — this holds or fails for every schedule at once; (R2) Done is executed exactly once on every exit of the goroutine body, including the context-skip return and panic edges; (R3) Wait waits on the same wait-group field; (R4) Shutdown: the store is closed only on the arm selected by the completion of Wait, nil is returned only there, the context arm returns the context's error and closes nothing, and a Close error is returned. Not decided: real-time claims. R4 also requires the completion channel to be made by the Shutdown call itself; (R6) async deliveries start from a private snapshot.",
 		Run: func(c *Ctx) {
 			c.Rule("C06.R1", "Add(1) exactly once in the publisher before each spawn, never in the goroutine, never unbalanced")
 			c.Rule("C06.R2", "Done exactly once on every exit of the async goroutine (return, skip, panic)")
@@ -189,7 +189,7 @@ func init() {
 		},
 	})
 	register("C08", &PropDef{
-		Explain: "Structural necessary conditions of 'cancellation, context propagation and publish hooks behave predictably', decided on all paths of PublishContext and what it inlines: (R1) on every path from the start of a delivery to a handler start there is a non-blocking poll of the publish context's Done() in that delivery whose done arm skips the invocation; for synchronous handlers the poll is in the publisher after the previous handler returned; (R2) the context handed to context-aware handler arms originates only from PublishContext's ctx parameter, possibly passed through Observability.OnPublishStart/OnHandlerStart — never context.Background()/TODO(); (R3) each of the four publish hooks, when set, is invoked exactly once on every path from entry to return with (reflect.TypeOf(event), event) (ctx hooks with the publish ctx); before-hooks precede the handler snapshot, after-hooks follow the dispatch loop, and no return separates them (so it holds with no handlers and with a cancelled context alike). Not decided: that user hooks return; what observability implementations do with the context.",
+		Explain: "Structural necessary conditions of 'cancellation, context propagation and publish hooks behave predictably', decided on all paths of PublishContext and what it inlines: (R1) on every path from the start of a delivery to a handler start there is a non-blocking poll of the publish context's Done() in that delivery whose done arm skips the invocation; for synchronous handlers the poll is in the publisher after the previous handler returned; (R2) the context handed to context-aware handler arms originates only from PublishContext's ctx parameter, possibly passed through Observability.OnPublishStart/OnHandlerStart — never context.Background()/TODO(); (R3) each of the four publish hooks, when set, is invoked exactly once on every path from entry to return with (reflect.TypeOf(event), event) (ctx hooks with the publish ctx); before-hooks precede the handler snapshot, after-hooks follow the dispatch loop, and no return separates them (so it holds with no handlers and with a cancelled context alike). Not decided: that user hooks return; what observability implementations do with the context. R2 also requires context values to be stored under keys of unexported module types (bus and otel observer); (R4) no delivery can block forever on a leaked sequential lock.",
 		Run: func(c *Ctx) {
 			c.Rule("C08.R1", "context gate: a live poll of the publish context precedes every handler start in the same delivery")
 			c.Rule("C08.R2", "context provenance: handlers receive the publish ctx (through observability only)")
